@@ -23,6 +23,10 @@ Theorem C18_info_lists : info_lists_stmt.
 Proof. exact info_lists. Qed.
 Print Assumptions C18_info_lists.
 
+Theorem C18_info_conf : info_conf_stmt.
+Proof. exact info_conf. Qed.
+Print Assumptions C18_info_conf.
+
 Theorem C18_info_prod_partial : info_prod_partial_stmt.
 Proof. exact info_prod_partial. Qed.
 Print Assumptions C18_info_prod_partial.
@@ -42,11 +46,12 @@ Example C18_nonvacuous :
   map (fun d => (a_name d, a_src d)) (s_run nv_hist []) = [(4660, 5); (13907095858110791681, 10)] /\
   (exists st, run nv_hist init_state = Ok st /\ by_name st 4660 = Ok (Some 5) /\ by_name st 13907095858110791681 = Ok (Some 10) /\
      exists e, entry_at st 5 = Ok (Some e) /\ e_pi e = s_reported (match s_prod wit_piB with Some p => p | None => pi_clear end) /\
-               pgn_list (e_tx e) = Ok (Some [126464; 126996])).
+               pgn_list (e_tx e) = Ok (Some [126464; 126996]) /\
+               conf_str e (e_man e) = Ok (Some [77]) /\ conf_str e (e_d1 e) = Ok (Some [68; 101; 115; 99; 32; 111; 110]) /\ conf_str e (e_d2 e) = Ok None).
 Proof.
   split; [exact nv_no_return|]. split; [vm_compute; reflexivity|].
   destruct (run nv_hist init_state) as [st| |] eqn:E; [|vm_compute in E; discriminate|vm_compute in E; discriminate].
   exists st. split; [reflexivity|]. vm_compute in E. injection E as <-. split; [vm_compute; reflexivity|]. split; [vm_compute; reflexivity|].
-  eexists. split; [vm_compute; reflexivity|]. split; vm_compute; reflexivity.
+  eexists. split; [vm_compute; reflexivity|]. repeat split; vm_compute; reflexivity.
 Qed.
 Print Assumptions C18_nonvacuous.
